@@ -72,11 +72,17 @@ func (p *c08ProbeModel) ActiveManagementActions() []action.ManagementAction {
 }
 
 // a private copy is nobody else's business: it is returned unwrapped
-func (p *c08ProbeModel) DeepClone() model.Model { p.access("DeepClone", false); return p.Model.DeepClone() }
+func (p *c08ProbeModel) DeepClone() model.Model {
+	p.access("DeepClone", false)
+	return p.Model.DeepClone()
+}
 
 // attributes.Interface, forwarded (SolutionBuilder.transferAttributes asserts for it)
 func (p *c08ProbeModel) attrs() attributes.Interface { return p.Model.(attributes.Interface) }
-func (p *c08ProbeModel) HasAttribute(n string) bool  { p.access("HasAttribute", false); return p.attrs().HasAttribute(n) }
+func (p *c08ProbeModel) HasAttribute(n string) bool {
+	p.access("HasAttribute", false)
+	return p.attrs().HasAttribute(n)
+}
 func (p *c08ProbeModel) Attribute(n string) interface{} {
 	p.access("Attribute", false)
 	return p.attrs().Attribute(n)
@@ -85,10 +91,22 @@ func (p *c08ProbeModel) AllAttributes() attributes.Attributes {
 	p.access("AllAttributes", false)
 	return p.attrs().AllAttributes()
 }
-func (p *c08ProbeModel) AddAttribute(n string, v interface{})     { p.access("AddAttribute", true); p.attrs().AddAttribute(n, v) }
-func (p *c08ProbeModel) RenameAttribute(a, b string)              { p.access("RenameAttribute", true); p.attrs().RenameAttribute(a, b) }
-func (p *c08ProbeModel) ReplaceAttribute(n string, v interface{}) { p.access("ReplaceAttribute", true); p.attrs().ReplaceAttribute(n, v) }
-func (p *c08ProbeModel) RemoveAttribute(n string)                 { p.access("RemoveAttribute", true); p.attrs().RemoveAttribute(n) }
+func (p *c08ProbeModel) AddAttribute(n string, v interface{}) {
+	p.access("AddAttribute", true)
+	p.attrs().AddAttribute(n, v)
+}
+func (p *c08ProbeModel) RenameAttribute(a, b string) {
+	p.access("RenameAttribute", true)
+	p.attrs().RenameAttribute(a, b)
+}
+func (p *c08ProbeModel) ReplaceAttribute(n string, v interface{}) {
+	p.access("ReplaceAttribute", true)
+	p.attrs().ReplaceAttribute(n, v)
+}
+func (p *c08ProbeModel) RemoveAttribute(n string) {
+	p.access("RemoveAttribute", true)
+	p.attrs().RemoveAttribute(n)
+}
 func (p *c08ProbeModel) JoiningAttributes(a attributes.Attributes) {
 	p.access("JoiningAttributes", true)
 	p.attrs().JoiningAttributes(a)
@@ -171,6 +189,66 @@ func c08ProbeSave(fam string, fx *c12fixture, membersA, membersB [][]bool, hookA
 	os.RemoveAll(dirA)
 	os.RemoveAll(dirB)
 	return rec, obs
+}
+
+// a logger that calls back on every Info/Debug line: the saver and its encoders log between the critical sections of a
+// save, which is where another run's save can slip in without any lock being violated
+type c08HookLogger struct {
+	loggers.NullLogger
+	hook func()
+}
+
+func (l *c08HookLogger) Info(message interface{}) {
+	if l.hook != nil {
+		l.hook()
+	}
+}
+func (l *c08HookLogger) Debug(message interface{}) {
+	if l.hook != nil {
+		l.hook()
+	}
+}
+
+// one Detail-level save of run A's result; run B saves its whole result at the hookAt-th log line that is written
+// while the mutex is free (i.e. BETWEEN two critical sections of A's save).  Returns how many such lines there were.
+func c08ProbeSaveBetween(fam string, fx *c12fixture, membersA, membersB [][]bool, hookAt int, tmp string) (int, c12saveObs) {
+	dirA := filepath.Join(tmp, fmt.Sprintf("bA-%s-%d", fam, hookAt))
+	dirB := filepath.Join(tmp, fmt.Sprintf("bB-%s-%d", fam, hookAt))
+	logger := &c08HookLogger{}
+	saver := scenario.NewSaver().WithOutputType(solenc.OutputType("CSV")).WithOutputLevel(scenario.OutputLevel("Detail")).
+		WithLogHandler(logger).WithOutputPath(dirA)
+	saver.SetDecompressionModel(fx.base)
+	eventB := c08ProbeEvent(fam, fx, membersB, "probe (2/2)")
+	free, inHook := 0, false
+	logger.hook = func() {
+		if inHook || saver.VerifC08DecompressionLockHeld() {
+			return
+		}
+		free++
+		if hookAt > 0 && free == hookAt {
+			inHook = true
+			saver.WithOutputPath(dirB)
+			saver.ObserveEvent(*eventB)
+			saver.WithOutputPath(dirA)
+			inHook = false
+		}
+	}
+	obs := c12saveObs{Listing: []string{}, Rows: []c12row{}, Header: []string{}}
+	p, what := protect(func() { saver.ObserveEvent(*c08ProbeEvent(fam, fx, membersA, "probe (1/2)")) })
+	if p {
+		obs.Panicked = what
+	}
+	entries, _ := os.ReadDir(dirA)
+	for _, e := range entries {
+		obs.Listing = append(obs.Listing, e.Name())
+	}
+	sort.Strings(obs.Listing)
+	if !p {
+		c12parseSummary(&obs, dirA, "CSV")
+	}
+	os.RemoveAll(dirA)
+	os.RemoveAll(dirB)
+	return free, obs
 }
 
 // instruction sequence of SharedSection.v from an access recording: maximal runs of accesses with the lock held
@@ -294,6 +372,22 @@ func c08SaverProbe() {
 				}
 			}
 		}
+		// interleavings that violate no lock: the other run's whole save between two critical sections of this one
+		nFree, _ := c08ProbeSaveBetween(fam, fx, membersA, membersB, 0, tmp)
+		between, betweenWrong := 0, 0
+		for k := 1; k <= nFree && k <= 16; k++ {
+			_, obsK := c08ProbeSaveBetween(fam, fx, membersA, membersB, k, tmp)
+			between++
+			if bad := c08ProbeWrongRows(obsK, membersA, nActions, fam); len(bad) > 0 {
+				betweenWrong++
+				if betweenWrong <= 2 {
+					emit(J{"kind": "oracle", "what": "two runs saving through the scenario's one saver: run 2 saved its whole result between two critical sections of run 1's save (the mutex was free, no lock discipline violated); run 1's summary then holds rows that are not the model's values for the row's own action encoding, or not run 1's solutions",
+						"family": fam, "other_run_saves_at_free_log_line": k, "wrong_rows_of_run_1": bad})
+					c08stats["oracle_lines"]++
+				}
+			}
+		}
+		c08stats["saver_probe_between_section_interleavings"] += between
 		if len(solo) > 0 {
 			emit(J{"kind": "oracle", "what": "a single save through the probe-wrapped saver wrote rows that are not the fresh evaluation of their encoding", "family": fam, "wrong_rows": solo})
 			c08stats["oracle_lines"]++
